@@ -453,10 +453,8 @@ func (c *Ctx) closeOnceProtected(f *ssa.Function, cl *ssa.Call) bool {
 	tested := false
 	for _, g := range flow.Guards(cl) {
 		cond, neg := flow.Cond(g.If.Cond, g.Taken)
-		if ex, ok := cond.(*ssa.Extract); ok && ex.Index == 1 && neg {
-			if call, ok := ex.Tuple.(*ssa.Call); ok && flow.IsCallTo(call, pkgSMPeer, "", "FromContext") {
-				tested = true
-			}
+		if _, ok := peerKnownTest(cond, 0); ok && neg {
+			tested = true
 		}
 	}
 	if !tested {
@@ -532,10 +530,8 @@ func (c *Ctx) sendAfterClose(f *ssa.Function) (string, ssa.Instruction) {
 			okGuard := false
 			for _, gd := range flow.Guards(in) {
 				cond, neg := flow.Cond(gd.If.Cond, gd.Taken)
-				if ex, ok := cond.(*ssa.Extract); ok && ex.Index == 1 && neg {
-					if call, ok := ex.Tuple.(*ssa.Call); ok && flow.IsCallTo(call, pkgSMPeer, "", "FromContext") {
-						okGuard = true
-					}
+				if _, ok := peerKnownTest(cond, 0); ok && neg {
+					okGuard = true
 				}
 			}
 			if !okGuard {
